@@ -97,8 +97,9 @@ example : unquote [37, 67, 51, 37, 65, 57, 37, 122, 122, 37, 52, 233, 37] = [233
 
 /-- Any texts placed in username, password, path segments, query keys / values and fragment of a
     URL with a valid scheme, host and port (`WF`) are recovered exactly, up to NFC, after
-    `to_text(full_quote=True)` and re-parsing; scheme, host, family and port come back unchanged
-    (`normal` changes nothing else): nothing leaks into a neighbouring component.
+    `to_text(full_quote=True)` and re-parsing; scheme, host, family and port come back unchanged - except a
+    port that `to_text` never renders (zero / the scheme's default), which comes back as no port
+    (`normal` changes nothing else; see `no_leak`): nothing leaks into a neighbouring component.
     Holds for every normaliser with `nfc "" = ""`, every inet_pton, every idna codec that maps
     this host to itself. -/
 theorem roundtrip_full (env : Env) (u : URL) (hW : WF env u) (hnil : env.nfc [] = []) :
@@ -106,17 +107,19 @@ theorem roundtrip_full (env : Env) (u : URL) (hW : WF env u) (hnil : env.nfc [] 
   ⟨fullText env u, toText_urlText env true env.nfc u (hW.toWFq hnil),
    ofText_urlText env true env.nfc u (hW.toWFq hnil) hnil⟩
 
-/-- the same, component by component -/
+/-- the same, component by component.  The port comes back unless it is one that is never rendered (zero, or
+    the default port of the scheme: `portBack`); a positive non-default port (`PortOK`) comes back as it is -/
 theorem no_leak (env : Env) (u : URL) (hW : WF env u) (hnil : env.nfc [] = []) :
     ∃ t v, toText env true u = .ok t ∧ URL.ofText env t = .ok v ∧
-      v.scheme = u.scheme ∧ v.host = u.host ∧ v.port = u.port ∧ v.family = u.family ∧
+      v.scheme = u.scheme ∧ v.host = u.host ∧ v.port = portBack u ∧ (PortOK u → v.port = u.port) ∧
+      v.family = u.family ∧
       v.username = env.nfc u.username ∧ v.password = env.nfc u.password ∧
       v.pathParts = u.pathParts.map env.nfc ∧
       v.query = u.query.map (fun kv => (env.nfc kv.1, kv.2.map env.nfc)) ∧
       v.fragment = env.nfc u.fragment :=
   ⟨fullText env u, normal env u, toText_urlText env true env.nfc u (hW.toWFq hnil),
    ofText_urlText env true env.nfc u (hW.toWFq hnil) hnil,
-   rfl, rfl, rfl, rfl, rfl, rfl, rfl, rfl, rfl⟩
+   rfl, rfl, rfl, fun h => portBack_of_ok h, rfl, rfl, rfl, rfl, rfl, rfl⟩
 
 /-- the parser cuts the fully quoted rendering exactly at the component boundaries (no character
     of a rendered component is a delimiter for the position it stands in) -/
@@ -130,8 +133,8 @@ theorem render_boundaries (env : Env) (u : URL) (hW : WF env u) (hnil : env.nfc 
     URI or relative reference, `URL.ofText env t = .ok u → toText env true u = .ok t₁ →
     URL.ofText env t₁ = .ok u₁ → toText env true u₁ = .ok t₁`.
     PROVED PART: render → parse → render is the identity on the text for every URL that satisfies
-    `WF` (scheme; host a registered name / IPv4 literal or a bracketed IPv6 literal; valid port;
-    absolute path) — in particular for every parsed URL of that shape; relative references,
+    `WF` (scheme; host a registered name / IPv4 literal or a bracketed IPv6 literal; no port or any
+    natural-number port, zero and the scheme's default included; absolute path) — in particular for every parsed URL of that shape; relative references,
     scheme-only / host-less URLs and IDN hosts are covered by the correspondence and the oracle only. -/
 theorem render_fixed_full_partial (env : Env) (hl : NfcLaws env.nfc) (u : URL) (hW : WF env u) :
     ∃ t u₁, toText env true u = .ok t ∧ URL.ofText env t = .ok u₁ ∧ toText env true u₁ = .ok t :=
@@ -184,7 +187,7 @@ theorem wf_u0 : WF env0 u0 where
   host_ne := by decide
   host_form := .name (by decide) (by decide) (fun _ => rfl)
   idna_dec := rfl
-  port_ok := Or.inr ⟨8042, rfl, by decide, by decide⟩
+  port_ok := Or.inr ⟨8042, rfl⟩
   path_abs := ⟨_, rfl⟩
   query_ok := by decide
   scalars := ⟨by decide, by decide, by decide, by decide, by
@@ -194,13 +197,23 @@ theorem wf_u0 : WF env0 u0 where
     · exact ⟨by decide, by intro v hv; cases hv; decide⟩
     · exact ⟨by decide, by intro v hv; cases hv; decide⟩⟩
 
+/- port 80 of an `http` URL and port 0 are not rendered and therefore come back as "no port"; 8042 comes back -/
+example : portBack { u0 with port := some 80 } = none ∧ portBack { u0 with port := some 0 } = none ∧
+    portBack u0 = some 8042 := by decide +kernel
+
+/-- the same URL with the default port of its scheme (never rendered) is still inside the fixed-point theorems -/
+theorem wf_u0_default_port : WF env0 { u0 with port := some 80 } := wf_u0.withPort (some 80)
+
+example : ((toText env0 true { u0 with port := some 80 }).toOption.bind fun t => (URL.ofText env0 t).toOption) =
+    some (normal env0 { u0 with port := none }) := by decide +kernel
+
 theorem wfmin_u0 : WFmin env0 u0 where
   scheme_ne := by decide
   scheme_ok := by decide
   host_ne := by decide
   host_form := .name (by decide) (by decide) (fun h => by cases h)
   idna_dec := rfl
-  port_ok := Or.inr ⟨8042, rfl, by decide, by decide⟩
+  port_ok := Or.inr ⟨8042, rfl⟩
   path_abs := ⟨_, rfl⟩
   query_ok := by decide
   user_scalar := by decide
@@ -227,7 +240,7 @@ theorem wf_u6 : WF env6 u6 where
   host_ne := by decide
   host_form := .v6 rfl (by decide) (by decide) (by decide)
   idna_dec := rfl
-  port_ok := Or.inr ⟨81, rfl, by decide, by decide⟩
+  port_ok := Or.inr ⟨81, rfl⟩
   path_abs := ⟨_, rfl⟩
   query_ok := by decide
   scalars := ⟨by decide, by decide, by decide, by decide, by
